@@ -107,7 +107,9 @@ fn request_step(ctx: Ctx, p: &Prop) -> Step {
         Ctx::Publish | Ctx::Will => Step::Publish(PubSpec { topic: "c19".into(), payload: PayloadSpec::Bytes(b"ab".to_vec()), qos: 1, retain: false, props: vec![p.clone()], correlate: None, cancel_at: None }),
         Ctx::Subscribe => Step::Subscribe(SubSpec { filters: vec![FilterSpec { filter: "c19/#".into(), max_qos: 1, no_local: false, rap: false, rh: 0 }], props: vec![p.clone()], cancel_at: None }),
         Ctx::Unsubscribe => Step::Unsubscribe(UnsubSpec { filters: vec!["c19".into()], props: vec![p.clone()], cancel_at: None }),
-        Ctx::Disconnect => Step::Disconnect(DiscSpec { reason: Some(0), props: Some(vec![p.clone()]), cancel_at: None }),
+        // built like an application would: `Disconnect::success().with_properties(..)` (no explicit
+        // reason code) for user properties and reason strings, an explicit code for the rest
+        Ctx::Disconnect => Step::Disconnect(DiscSpec { reason: if matches!(p, Prop::UserProperty(..) | Prop::ReasonString(_)) { None } else { Some(0) }, props: Some(vec![p.clone()]), cancel_at: None }),
         Ctx::PublishCorrelated => Step::Publish(PubSpec { topic: "c19".into(), payload: PayloadSpec::Bytes(b"ab".to_vec()), qos: 1, retain: false, props: vec![p.clone()], correlate: Some(vec![0xC0, 0xDE]), cancel_at: None }),
         Ctx::Reply => unreachable!(),
     }
@@ -145,19 +147,19 @@ impl Check for C19 {
         "exploration"
     }
     fn rule(&self) -> String {
-        "EXHAUSTIVE enumeration of 27 property kinds x {publish, will, subscribe, unsubscribe, disconnect, publish built with correlate(), reply()/reply_owned() publication with caller properties} x value variants (legal, boundary, illegal) x session states {idle, in-flight work with withheld acks, dead handle, send window used up, all eight in-flight slots used} against a reference table written from the MQTT 5.0 text (Accept / Reject / DontCare): Reject => documented error (InvalidRequest also when the request could not have been admitted anyway) and no trace (no byte of the request written, snapshot incl. the identifier counter, handle statuses, quiescence and can_publish unchanged); Accept => the request succeeds with ample buffers and the property is decoded from the wire with the same value; plus empty SUBSCRIBE/UNSUBSCRIBE lists, and Maximum QoS {absent,0,1} x requested {0,1,2} x auto-downgrade {on,off} x {idle, in-flight work, dead handle, resumed reconnect after a different Maximum QoS, fresh reconnect after a different Maximum QoS}: no PUBLISH above the maximum on the wire, returned handle kind (none / completed by PUBACK / completed by PUBCOMP) matches the QoS sent. Every cell is a distinct non-trivial case.".into()
+        "EXHAUSTIVE enumeration of 27 property kinds x {publish, will, subscribe, unsubscribe, disconnect, publish built with correlate(), reply()/reply_owned() publication with caller properties} x value variants (legal, boundary, illegal) x session states {idle, in-flight work with withheld acks, dead handle, send window used up, all eight in-flight slots used} against a reference table written from the MQTT 5.0 text (Accept / Reject / DontCare): Reject => documented error (InvalidRequest also when the request could not have been admitted anyway) and no trace (no byte of the request written, snapshot incl. the identifier counter, handle statuses, quiescence and can_publish unchanged); Accept => the request succeeds with ample buffers and the property is decoded from the wire with the same value; plus empty SUBSCRIBE/UNSUBSCRIBE lists, sets of several legal properties on one request (repeated User Properties, one of every legal kind together) in each of the five base contexts, and Maximum QoS {absent,0,1} x requested {0,1,2} x auto-downgrade {on,off} x {idle, in-flight work, dead handle, resumed reconnect after a different Maximum QoS, fresh reconnect after a different Maximum QoS}: no PUBLISH above the maximum on the wire, returned handle kind (none / completed by PUBACK / completed by PUBCOMP) matches the QoS sent. Every cell is a distinct non-trivial case.".into()
     }
     fn assumptions(&self) -> Vec<String> {
         vec!["the reference table (requests.rs::verdict, DESIGN.md appendix A) is a correct reading of MQTT 5.0".into(), "string content rules (wildcards in a response topic, U+0000) are invalid user input and not generated".into()]
     }
     fn workloads(&self) -> Vec<Workload> {
-        vec![Workload { name: "property-cells", quick: 27 * 7 * 5, thorough: 27 * 7 * 5 }, Workload { name: "qos-cap-cells", quick: 5 * 3 * 2 * 3, thorough: 5 * 3 * 2 * 3 }, Workload { name: "empty-lists", quick: 6, thorough: 6 }]
+        vec![Workload { name: "property-cells", quick: 27 * 7 * 5, thorough: 27 * 7 * 5 }, Workload { name: "qos-cap-cells", quick: 5 * 3 * 2 * 3, thorough: 5 * 3 * 2 * 3 }, Workload { name: "empty-lists", quick: 6, thorough: 6 }, Workload { name: "legal-sets", quick: 15, thorough: 15 }]
     }
     fn min_nontrivial(&self, _tier: Tier) -> usize {
         400
     }
     fn required_counters(&self) -> Vec<&'static str> {
-        vec!["cells_accept", "cells_reject", "no_trace_comparisons", "downgrade_cells", "dead_handle_cells", "blocked_state_cells", "qos_cap_cells_after_reconnect", "reply_cells"]
+        vec!["cells_accept", "cells_reject", "no_trace_comparisons", "downgrade_cells", "dead_handle_cells", "blocked_state_cells", "qos_cap_cells_after_reconnect", "reply_cells", "legal_set_cells"]
     }
     fn exhaustive(&self) -> bool {
         true
@@ -470,6 +472,77 @@ impl Check for C19 {
                                 }
                             }
                         }
+                    }
+                });
+            }
+            3 => {
+                // several legal properties on one request: repeated User Properties (the one kind
+                // MQTT 5 allows to repeat) and one of every legal kind together
+                let ctx = CTXS[(index % 5) as usize];
+                let shape = index / 5;
+                let up = |k: &str, v: &str| Prop::UserProperty(k.into(), v.into());
+                let set: Vec<Prop> = match shape {
+                    0 => vec![up("k", "v"), up("k", "v")],
+                    1 => vec![up("a", "1"), up("b", "2"), up("a", "3")],
+                    _ => {
+                        let mut v: Vec<Prop> = match ctx {
+                            Ctx::Publish => vec![Prop::PayloadFormat(1), Prop::MessageExpiry(60), Prop::ContentType("t".into()), Prop::ResponseTopic("r/t".into()), Prop::CorrelationData(vec![1, 2])],
+                            Ctx::Will => vec![Prop::WillDelay(5), Prop::PayloadFormat(1), Prop::MessageExpiry(60), Prop::ContentType("t".into()), Prop::ResponseTopic("r/t".into()), Prop::CorrelationData(vec![1, 2])],
+                            Ctx::Subscribe => vec![Prop::SubscriptionId(7)],
+                            Ctx::Disconnect => vec![Prop::SessionExpiry(0), Prop::ReasonString("bye".into())],
+                            _ => vec![],
+                        };
+                        v.push(up("x", "y"));
+                        v.push(up("x", "z"));
+                        v
+                    }
+                };
+                let label = format!("legal-set/{:?}/shape{}", ctx, shape);
+                out.key(label.clone());
+                let mut cfg = CaseCfg { rx: 256, tx: 2048, keepalive: 0, session_expiry: ENV.connect_expiry, ..CaseCfg::default() };
+                if ctx == Ctx::Will {
+                    cfg.will = Some(WillSpec { topic: "w".into(), payload: vec![1], qos: 1, retain: false, props: set.clone() });
+                }
+                let mut steps = vec![connect_with(SpMode::Force(false), AckMode::Immediate, vec![])];
+                let req_at = steps.len();
+                steps.push(match ctx {
+                    Ctx::Publish => Step::Publish(PubSpec { topic: "c19".into(), payload: PayloadSpec::Bytes(b"ab".to_vec()), qos: 1, retain: false, props: set.clone(), correlate: None, cancel_at: None }),
+                    Ctx::Will => pub1("after-will", 5, 2),
+                    Ctx::Subscribe => Step::Subscribe(SubSpec { filters: vec![FilterSpec { filter: "c19/#".into(), max_qos: 1, no_local: false, rap: false, rh: 0 }], props: set.clone(), cancel_at: None }),
+                    Ctx::Unsubscribe => Step::Unsubscribe(UnsubSpec { filters: vec!["c19".into()], props: set.clone(), cancel_at: None }),
+                    _ => Step::Disconnect(DiscSpec { reason: Some(0), props: Some(set.clone()), cancel_at: None }),
+                });
+                steps.push(poll0());
+                let want = set.clone();
+                judge_run(&cfg, steps, label.clone(), &mut out, &mut |t, out| {
+                    out.count("legal_set_cells", 1);
+                    if let Some(e) = &t.log.setup_error {
+                        out.violations.push(viol("C19", format!("C19/legal-set/{:?}/refused", ctx).to_lowercase(), format!("{}: configuration with the legal properties {:?} was refused: {}", label, want, e)));
+                        return;
+                    }
+                    let Some(op) = t.log.ops.iter().find(|o| o.step == req_at) else { return };
+                    if !matches!(op.outcome, Outcome::Ok(_)) {
+                        out.violations.push(viol("C19", format!("C19/legal-set/{:?}/refused", ctx).to_lowercase(), format!("{}: request with the legal properties {:?} returned {:?}", label, want, op.outcome)));
+                        return;
+                    }
+                    let c = &t.w.conns[0];
+                    let same = |got: &Vec<Prop>| {
+                        let mut a = got.clone();
+                        let mut b = want.clone();
+                        a.sort_by_key(|p| format!("{:?}", p));
+                        b.sort_by_key(|p| format!("{:?}", p));
+                        a == b
+                    };
+                    let found = c.out.packets.iter().any(|k| match (&k.pkt, ctx) {
+                        (CPacket::Publish { props, topic, .. }, Ctx::Publish) => topic == "c19" && same(props),
+                        (CPacket::Connect { will: Some(wr), .. }, Ctx::Will) => same(&wr.props),
+                        (CPacket::Subscribe { props, .. }, Ctx::Subscribe) => same(props),
+                        (CPacket::Unsubscribe { props, .. }, Ctx::Unsubscribe) => same(props),
+                        (CPacket::Disconnect { props, .. }, Ctx::Disconnect) => same(props),
+                        _ => false,
+                    });
+                    if !found {
+                        out.violations.push(viol("C19", format!("C19/legal-set/{:?}/not-on-wire", ctx).to_lowercase(), format!("{}: accepted, but the properties {:?} were not decoded from the wire", label, want)));
                     }
                 });
             }
